@@ -509,6 +509,65 @@ func checkC18(w *World, r *Report) {
 				ok = actionOnEdge(g, absent, upd)
 			}
 		}
+		if ok {
+			// every kind of the list is visited: the loop over member.Kinds is left only through its bound, and an
+			// iteration either records the kind or finds it known (comma-ok or plain lookup) — and goes on
+			upd := make([]bool, len(g.ins))
+			for i, in := range g.ins {
+				if mu, isM := in.(*ssa.MapUpdate); isM && w.pathOf(mu.Map) == "P0.kinds" {
+					upd[i] = true
+				}
+			}
+			bound, _ := g.CondEdges(func(v ssa.Value) (bool, bool) {
+				b, isB := v.(*ssa.BinOp)
+				return true, isB && b.Op == token.LSS && w.pathOf(b.Y) == "len(P1.Kinds)"
+			})
+			known, _ := w.lookupEdges(g, "P0.kinds")
+			truthy, _ := g.CondEdges(func(v ssa.Value) (bool, bool) {
+				p := w.pathOf(v)
+				return true, strings.HasPrefix(p, "P0.kinds[P1.Kinds[") && !strings.Contains(p, "#")
+			})
+			known = append(known, truthy...)
+			if len(bound) == 0 {
+				ok = false
+			}
+			cut := map[Edge]bool{}
+			for _, e := range known {
+				cut[e] = true
+			}
+			hdr := make([]bool, len(g.ins))
+			var exits []int
+			for _, e := range bound {
+				hdr[e.from] = true
+				if fe, okE := g.EdgeOf(e.from, false); okE {
+					exits = append(exits, fe.to)
+				}
+			}
+			for _, e := range bound {
+				rr := g.reach([]int{e.to}, upd, cut)
+				if rr[e.from] {
+					ok = false // an iteration that neither records the kind nor found it known
+				}
+			}
+			var conts []int
+			for _, e := range known {
+				conts = append(conts, e.to)
+			}
+			for _, u := range members(upd) {
+				conts = append(conts, g.succ[u]...)
+			}
+			rr := g.reach(conts, hdr, nil)
+			for _, x := range exits {
+				if rr[x] {
+					ok = false // the loop is left before the list is exhausted
+				}
+			}
+			for _, x := range g.returns {
+				if rr[x] {
+					ok = false
+				}
+			}
+		}
 		r.Check(ok, "C18.R2", fname(a.join)+":kinds", "the join handler records every kind of the new member (on the edge where it is not yet known)", w.fnPos(a.join), "HasKind stays false for a kind that only the new member offers")
 		// leave rebuilds kinds after the removal (through the rebuild helper, or written out in the leave handler)
 		rebuildInline := false
@@ -999,6 +1058,48 @@ func checkC19(w *World, r *Report) {
 			}
 		}
 		r.Check(okB, "C19.R1", fname(a.activate)+":effects-behind-tests", "requests and broadcasts happen only for an unknown id", site, "an effect is reachable without passing the duplicate test")
+		// nil is returned only for one of the stated reasons: known id, no capable member, the select function
+		// chose nobody, the request failed, or the response was no success. Any other refusal means "a capable
+		// member exists, the id is free, and nothing is spawned".
+		{
+			excused := append(append([]Edge{}, known...), noMember...)
+			more, _ := g.CondEdges(func(v ssa.Value) (bool, bool) {
+				if b, ok := v.(*ssa.BinOp); ok && (b.Op == token.EQL || b.Op == token.NEQ) {
+					x, y := w.pathOf(b.X), w.pathOf(b.Y)
+					if x == "K:nil" {
+						x, y = y, x
+					}
+					if y == "K:nil" && strings.HasPrefix(x, "call:dyn[") {
+						return b.Op == token.EQL, true // the select function returned nil
+					}
+					if y == "K:nil" && strings.HasSuffix(x, "#1") && strings.Contains(x, ".Result(") {
+						return b.Op == token.NEQ, true // the request failed
+					}
+				}
+				return false, false
+			})
+			excused = append(excused, more...)
+			_, neg := g.CondEdges(func(v ssa.Value) (bool, bool) {
+				p := w.pathOf(v)
+				if strings.HasPrefix(p, "assert<*cluster.ActivationResponse>(") && strings.HasSuffix(p, "#1") {
+					return true, true
+				}
+				if strings.HasSuffix(p, ".Success") {
+					return true, true
+				}
+				return false, false
+			})
+			excused = append(excused, neg...)
+			okN := true
+			dN := ""
+			for _, rc := range g.retCases() {
+				if len(rc.res) == 1 && w.pathOf(rc.res[0]) == "K:nil" && !rc.onlyVia(g, excused) {
+					okN = false
+					dN = "a `return nil` at " + w.pos(g.ins[rc.x].Pos()) + " is reachable although the id is unknown, a member offers the kind, the select function chose one and the request succeeded"
+				}
+			}
+			r.Check(okN, "C19.R1", fname(a.activate)+":refuses-only-for-cause", "activate returns nil only for a known id, an unoffered kind, no selected member, a failed request or an unsuccessful response", site, dN)
+		}
 		// success: exactly one bcast(Activation{PID: resp.PID}) and the same PID is returned
 		bs := w.callsIn(a.activate, EvCall("bcast", a.bcast))
 		okS := len(bs) == 1
